@@ -20,10 +20,10 @@ META = {
     "hashseeds": {"quick": [0, 1], "thorough": [0, 1, 2, 3]},
     "shards": {"quick": 8, "thorough": 4},
     "bounds": {
-        "quick": "adder w=1..16 x 4 carry options, mux w=1..16, popcount w=1..16, half/full adder: all input vectors; clog2: all 1<=n<=2^64 by AST->z3 unrolling (65 iterations + unwinding assertion); int_to_bin/bin_to_int round trip by CrossHair for w<=4 (reported Confirmed/Not confirmed; not-confirmed is reported as inconclusive, never as success) and by AST-level bounded check for w<=10",
-        "thorough": "adder w=1..48, mux w=1..40, popcount w=1..40; clog2 n<=2^128; round trip w<=6 CrossHair",
+        "quick": "adder w=1..16 x 4 carry options, mux w=1..16, popcount w=1..16, half/full adder, plus adder w in {65,129,258} (with carry-out), mux w in {65,129}: all input vectors; clog2: all 1<=n<=2^64 by AST->z3 unrolling (65 iterations + unwinding assertion); int_to_bin/bin_to_int round trip by CrossHair for w<=4 (reported Confirmed/Not confirmed; not-confirmed is reported as inconclusive, never as success) and by AST-level bounded check for w<=10",
+        "thorough": "adder w=1..48 and 11 widths from 63 to 300, mux w=1..40 and 8 widths from 63 to 257, popcount w=1..40; clog2 n<=2^128; round trip w<=6 CrossHair",
     },
-    "outside": ["widths above the bound", "int_to_bin for i >= 2^w (result longer than w, documented behaviour of zfill)"],
+    "outside": ["widths other than the listed ones (popcount above 40: the adder-tree-vs-sum query at w=65 timed out at 120 s)", "int_to_bin for i >= 2^w (result longer than w, documented behaviour of zfill)"],
     "assumptions": ["sem.py gate table", "z3 bit-vector theory", "the AST->z3 translator for clog2 handles exactly: assignment, augmented <<= and +=, while, if/raise, return (anything else aborts the check as harness error)"],
 }
 
@@ -43,6 +43,13 @@ def all_cases(ctx):
     for w in range(1, WM + 1):
         cs.append((("mux", w), ("mux", w)))
         cs.append((("popcount", w), ("popcount", w)))
+    # sparse large widths around the powers of two (word sizes, table sizes, small-int limits of the implementation language)
+    for w in ((65, 129, 258) if ctx.quick else (63, 64, 65, 127, 128, 129, 255, 256, 257, 258, 300)):
+        cs.append((("adder", w, True, True), ("adder", w, True, True)))
+        cs.append((("adder", w, False, True), ("adder", w, False, True)))
+    for w in ((65, 129) if ctx.quick else (63, 64, 65, 127, 128, 129, 193, 257)):
+        cs.append((("mux", w), ("mux", w)))
+    # (popcount beyond w=40 is out of reach: the adder-tree-vs-sum query at w=65 does not finish in 120 s)
     cs.append((("clog2",), ("clog2",)))
     cs.append((("roundtrip",), ("roundtrip",)))
     return cs
